@@ -13,7 +13,7 @@ if [ ! -x build/bin/vinst ] || [ tools/vinst/main.go -nt build/bin/vinst ]; then
 fi
 EXTRA=()
 [ -n "${VERIF_EXTRA_OVERLAY:-}" ] && EXTRA+=("$VERIF_EXTRA_OVERLAY")
-python3 lib/mkoverlay.py --out-dir "$ROOT/build/rw-$id" "${EXTRA[@]}" > "$out/base.json" || exit 2
+python3 lib/mkoverlay.py --harness "$id" --out-dir "$ROOT/build/rw-$id" "${EXTRA[@]}" > "$out/base.json" || exit 2
 rm -f "$out"/*.go
 PKGS="./common/... ./server/... ./coordinator/... ./oxia/..."
 [ -f "h/$id/INSTRUMENT" ] && [ -s "h/$id/INSTRUMENT" ] && PKGS=$(cat "h/$id/INSTRUMENT")
